@@ -451,6 +451,24 @@ pub fn run_numeric(case: &NumCase, st: &mut Stats) -> CaseResult {
         ("a few ulps apart", |x: f64| 0.75 + x * (0.5f64).powi(53) * if x.fract() == 0.0 { 1.0 } else { 8.0 }),
     ] {
         let h: Vec<f64> = f.iter().map(|x| g(*x)).collect();
+        if tag.starts_with("scaled") {
+            // power-of-two scaling keeps every sum and product of the laws exact, so the arithmetic laws are held
+            // to == at these magnitudes too (operands as small as 2^-63, products down to 2^-180)
+            let tagged = |mut e: Failure| {
+                e.detail = format!("{} [{}]", e.detail, tag);
+                e
+            };
+            let (ra, rb, rc) = (RealSemiring(h[0]), RealSemiring(h[2]), RealSemiring(h[4]));
+            semiring_laws("real", ra, rb, rc, &|l, r| l == r, true).map_err(tagged)?;
+            ensure!(((ra + rb) - rb) == ra, "C13/real:sub-inverts-add", "({:?} + {:?}) - {:?} = {:?} [{}]", ra, rb, rb, (ra + rb) - rb, tag);
+            let (xa, xb, xc) = (Complex { re: h[0], im: h[1] }, Complex { re: h[2], im: h[3] }, Complex { re: h[4], im: h[5] });
+            semiring_laws("complex", xa, xb, xc, &|l, r| l == r, true).map_err(tagged)?;
+            ensure!(((xa + xb) - xb) == xa, "C13/complex:sub-inverts-add", "({:?} + {:?}) - {:?} = {:?} [{}]", xa, xb, xb, (xa + xb) - xb, tag);
+            ensure!((xa + Complex::zero()) == xa && (xa * Complex::one()) == xa, "C13/complex:identities", "{:?} + 0 or * 1 changed the value [{}]", xa, tag);
+            let (ya, yb, yc) = (ExpectedUtility(h[0], h[1]), ExpectedUtility(h[2], h[3]), ExpectedUtility(h[4], h[5]));
+            semiring_laws("expected-utility", ya, yb, yc, &|l, r| l == r, true).map_err(tagged)?;
+            ensure!(((ya + yb) - yb) == ya, "C13/expected-utility:sub-inverts-add", "({:?} + {:?}) - {:?} = {:?} [{}]", ya, yb, yb, (ya + yb) - yb, tag);
+        }
         lattice_laws("real", RealSemiring(h[0]), RealSemiring(h[2]), RealSemiring(h[4])).map_err(|mut e| {
             e.detail = format!("{} [{}]", e.detail, tag);
             e
@@ -483,7 +501,7 @@ pub fn run_numeric(case: &NumCase, st: &mut Stats) -> CaseResult {
 impl SubCheckT for Numeric {
     type Case = NumCase;
     const NAME: &'static str = "real_complex_eu_bool_rational";
-    const RULE: &'static str = "triples of exactly representable values (integers in [-64,64], dyadics k/8) for the real, complex and expected-utility types, all Boolean triples, naturals < 40 built from one()/zero() for the rational type: semiring laws with exact equality, ring subtraction inverts addition, join/meet idempotent/commutative/associative, and for every PartialOrd-related pair join = choose (both the semiring and the ring variant) = larger, meet = smaller, also for the triples scaled by 2^-60 / 2^40 and for values a few units in the last place apart. Non-trivial: first components pairwise distinct and none is 0 or 1";
+    const RULE: &'static str = "triples of exactly representable values (integers in [-64,64], dyadics k/8) for the real, complex and expected-utility types, all Boolean triples, naturals < 40 built from one()/zero() for the rational type: semiring laws with exact equality, ring subtraction inverts addition (also for the triples scaled by 2^-60 and 2^40, which keeps all sums and products exact), join/meet idempotent/commutative/associative, and for every PartialOrd-related pair join = choose (both the semiring and the ring variant) = larger, meet = smaller, also for the triples scaled by 2^-60 / 2^40 and for values a few units in the last place apart. Non-trivial: first components pairwise distinct and none is 0 or 1";
     fn cases(tier: Tier) -> u32 {
         tier.pick(150_000, 1_500_000)
     }
